@@ -50,5 +50,7 @@ def bounded(tier, seed):
 def witnesses():
     t = "- a\n- b\n- - c\n\n    d\n  - e\n"
     o1 = P.fmt(t, width=88, semantic=False)
+    q1 = P.fmt('x "a" "b" y\n', smartquotes=True, width=88)
     return {"C02-nested-list-spacing": P.fmt(o1, width=88, semantic=False) != o1,
+            "C02-adjacent-quotes-second-pass": P.fmt(q1, smartquotes=True, width=88) != q1,
             "C02-tag-then-list-narrow": (lambda x: P.fmt(x, width=4, semantic=False) != x)(P.fmt("a {% t %}\n- b\n", width=4, semantic=False))}
